@@ -132,7 +132,7 @@ fn history_of(k: usize, nonce_only: bool) {
         }
     }
 }
-// HARNESS props=C08,C03,C09 tier=thorough profile=gw_hrot shape="constructor with one set, then 1 rotation (authorised by the first set; bypass or not; arbitrary clock, delay and retention: full u64), then a proof by either installed set"
+// HARNESS props=C08,C03,C09 tier=thorough profile=gw_hrot_full shape="constructor with one set, then 1 rotation (authorised by the first set; bypass or not; arbitrary clock, delay and retention: full u64), then a proof by either installed set"
 #[kani::proof]
 #[kani::stub(crate::auth::validate_signatures, accept_signatures)]
 #[kani::stub(crate::auth::message_hash_to_sign, no_digest)]
